@@ -162,6 +162,29 @@ func slots(root *ref.Value) []slot {
 	return out
 }
 
+// DropKeyVariants returns copies of root each lacking exactly one member of one object that has
+// at least two members (every member of that object in turn; objects visited in document
+// order; at most max variants).
+func DropKeyVariants(root *ref.Value, max int) []*ref.Value {
+	var out []*ref.Value
+	n := len(slots(root))
+	for si := 0; si < n && len(out) < max; si++ {
+		if v := slots(root)[si].val; v.Kind != ref.KObject || len(v.Members) < 2 {
+			continue
+		}
+		for mi := range slots(root)[si].val.Members {
+			if len(out) >= max {
+				break
+			}
+			c := Clone(root)
+			o := slots(c)[si].val
+			o.Members = append(o.Members[:mi:mi], o.Members[mi+1:]...)
+			out = append(out, c)
+		}
+	}
+	return out
+}
+
 // Mutate applies one local mutation to a copy of root and returns it with the mutation's name.
 // The mutation kind is drawn first and then one of the slots it applies to, so that
 // container-specific mutations are not starved by the many scalar slots.
@@ -191,16 +214,23 @@ func Mutate(t *rapid.T, root *ref.Value, keyPool []string, label string) (*ref.V
 		}
 		return true
 	}
-	name := rapid.SampledFrom(names).Draw(t, label+"Mut")
+	// choose among the mutations that apply somewhere in this document (construction, not
+	// rejection: a fallback for inapplicable draws used to make "replace-random" dominate)
+	var usable []string
+	for _, nm := range names {
+		for _, s := range all {
+			if applicable(nm, s.val) {
+				usable = append(usable, nm)
+				break
+			}
+		}
+	}
+	name := rapid.SampledFrom(usable).Draw(t, label+"Mut")
 	var cand []slot
 	for _, s := range all {
 		if applicable(name, s.val) {
 			cand = append(cand, s)
 		}
-	}
-	if len(cand) == 0 {
-		name = "replace-random"
-		cand = all
 	}
 	s := cand[rapid.IntRange(0, len(cand)-1).Draw(t, label+"Slot")]
 	set := func(nv *ref.Value) *ref.Value {
